@@ -86,6 +86,7 @@ class Ctx:
 
   def violation(self, key, what, witness=None):
     self.nviol += 1
+    self.count('violations:' + key)
     rec = {'k': 'viol', 'key': key, 'what': what, 'case': self.cur,
            'wid': self.wid, 'nw': self.nw, 'seed': self.seed, 'tier': self.tier,
            'witness': jsonable(witness)}
